@@ -149,13 +149,15 @@ func (s *ClientSideCompositeSyncer) Sync(ctx context.Context, cm *claim.Unstruct
 	// This ensures we don't leak an XR. We could leak an XR if we created an XR
 	// then crashed before saving a reference to it. We'd create another XR on
 	// the next reconcile.
-	existing := cm.GetResourceReference()
-	proposed := xr.GetReference()
-	if !cmp.Equal(existing, proposed) {
-		cm.SetResourceReference(proposed)
-		if err := s.client.Update(ctx, cm); err != nil {
-			return errors.Wrap(err, errUpdateClaim)
-		}
+	//
+	// We update the claim even if it already references the XR. The update
+	// fails if we're reconciling a claim that no longer exists as we read it,
+	// e.g. due to a stale cache. It's possible that the claim - and its XR -
+	// have since been deleted. We don't want to create the XR again: nothing
+	// would ever delete it.
+	cm.SetResourceReference(xr.GetReference())
+	if err := s.client.Update(ctx, cm); err != nil {
+		return errors.Wrap(err, errUpdateClaim)
 	}
 
 	// Apply the XR, unless it's a no-op change.
